@@ -92,12 +92,12 @@ Print Assumptions c05_delimited_in_words.
 
 (* the checks drive the client through the hook (`call_generic` over `from_transport`); it is `TlsClient::call` over
    `TlsClient::connect` token for token, so what is established through the hook is established for `call` *)
-From TI Require TagsSource.
+From TI Require HookSource.
 From TI.gen Require ClientTables.
 Theorem c05_hook_is_call_verbatim :
   ClientTables.gen_call_body = ClientTables.gen_call_generic_body /\ ClientTables.gen_connect_client = ClientTables.gen_hook_client /\
   ClientTables.gen_call_body <> "<missing>"%string /\ ClientTables.gen_connect_client <> nil.
-Proof. exact TagsSource.hook_is_call_verbatim_lemma. Qed.
+Proof. exact HookSource.hook_is_call_verbatim_lemma. Qed.
 Check c05_hook_is_call_verbatim :
   ClientTables.gen_call_body = ClientTables.gen_call_generic_body /\ ClientTables.gen_connect_client = ClientTables.gen_hook_client /\
   ClientTables.gen_call_body <> "<missing>"%string /\ ClientTables.gen_connect_client <> nil.
